@@ -683,3 +683,107 @@ Proof.
     unfold impl_interp in H. destruct (lookup d (fvars f)) as [v|]; [|discriminate].
     destruct (vshape v) as [|x [|y l]]; try discriminate. eapply apply_unlim; eauto.
 Qed.
+
+(* ---- completion of applyAlongDimensions inside its documented domain ------------------------------------------ *)
+Lemma afun_total_len g n : afun_total g = true -> exists m, afun_len g n = Some m.
+Proof. destruct g; simpl; intros H; try discriminate; eauto. Qed.
+
+Lemma bc_into_rev_refl l : bc_into_rev l l = true.
+Proof. induction l as [|x l IH]; simpl; auto. rewrite Nat.eqb_refl, IH. reflexivity. Qed.
+Lemma bc_into_refl s : bc_into s s = true.
+Proof. unfold bc_into. apply bc_into_rev_refl. Qed.
+
+(* the new length of dimension d (current length n) *)
+Definition apply_newlen (fs : list (name * afun)) (d : name) (n : nat) : nat :=
+  match lookup d fs with
+  | Some g => match afun_len g n with Some m => m | None => n end
+  | None => n end.
+
+Lemma apply_news_ok f : forall fs,
+  apply_dom f fs = true ->
+  exists news,
+    mapM (fun p => match lookup (fst p) (fdims f) with
+                   | None => Raise
+                   | Some (n, _) =>
+                       let n0 := match lookup (fst p) (fvars f) with
+                                 | Some v => match vshape v with [m] => m | _ => n end
+                                 | None => n end in
+                       match afun_len (snd p) n0 with Some m => Ok (fst p, m) | None => Raise end
+                   end) fs = Ok news
+    /\ forall d n u, lookup d (fdims f) = Some (n, u) ->
+         match lookup d news with Some c => c | None => n end = apply_newlen fs d n.
+Proof.
+  induction fs as [|[d g] fs IH]; intros D.
+  - exists []. split; [reflexivity|]. intros. reflexivity.
+  - simpl in D. apply andb_true_iff in D as [D1 D2]. apply andb_true_iff in D1 as [D1 CC]. apply andb_true_iff in D1 as [HD TT].
+    destruct (IH D2) as (news & E & L). simpl.
+    unfold has in HD. destruct (lookup d (fdims f)) as [[n u]|] eqn:Ed; [|discriminate].
+    assert (N0 : match lookup d (fvars f) with
+                 | Some v => match vshape v with [m] => m | _ => n end
+                 | None => n end = n).
+    { unfold coord_conv in CC. rewrite Ed in CC. destruct (lookup d (fvars f)) as [v|]; [|reflexivity].
+      destruct (vshape v) as [|m [|? ?]]; try reflexivity. apply Nat.eqb_eq in CC. exact CC. }
+    rewrite N0. destruct (afun_total_len g n TT) as [m Hm]. rewrite Hm. simpl. rewrite E. simpl.
+    exists ((d, m) :: news). split; [reflexivity|].
+    intros d' n' u' Hd'. unfold apply_newlen. simpl.
+    destruct (Nat.eqb d' d) eqn:Edd.
+    + apply Nat.eqb_eq in Edd. subst d'. rewrite Ed in Hd'. inv Hd'. rewrite Hm. reflexivity.
+    + apply (L d' n' u' Hd').
+Qed.
+
+Lemma relen_total (h : name -> nat -> nat) : forall T,
+  exists T', relen T (fun d n => Ok (h d n)) = Ok T'
+             /\ forall k, lookup k T' = match lookup k T with Some (n, u) => Some (h k n, u) | None => None end.
+Proof.
+  unfold relen. induction T as [|[a [n u]] T IH]; simpl.
+  - exists []. split; auto.
+  - destruct IH as (T' & E & L). rewrite E. simpl. eexists. split; [reflexivity|].
+    intros k. simpl. destruct (Nat.eqb k a) eqn:Ek; [apply Nat.eqb_eq in Ek; subst; reflexivity|apply L].
+Qed.
+
+Lemma apply_var_shapes T T' fs :
+  (forall k, lookup k T' = match lookup k T with Some (n, u) => Some (apply_newlen fs k n, u) | None => None end) ->
+  forallb (fun p => afun_total (snd p)) fs = true ->
+  forall ds sh, map (dimlen T) ds = map Some sh ->
+  exists s, apply_src fs ds sh = Ok s /\ shape_of T' ds = Ok s.
+Proof.
+  intros L TT. induction ds as [|d ds IH]; intros [|n sh] H; simpl in *; try discriminate.
+  - eexists; split; reflexivity.
+  - injection H as H1 H2. destruct (IH _ H2) as (s & E1 & E2). rewrite E1, E2. simpl.
+    unfold dimlen in H1. destruct (lookup d T) as [[n' u]|] eqn:Ed; [|discriminate]. simpl in H1. inv H1.
+    rewrite L, Ed. unfold apply_newlen. destruct (lookup d fs) as [g|] eqn:Eg.
+    + assert (afun_total g = true).
+      { apply lookup_In in Eg. rewrite forallb_forall in TT. apply (TT _ Eg). }
+      destruct (afun_total_len g n H) as [m Hm]. rewrite Hm. eexists; split; reflexivity.
+    + eexists; split; reflexivity.
+Qed.
+
+Lemma apply_vars_complete T T' fs :
+  (forall k, lookup k T' = match lookup k T with Some (n, u) => Some (apply_newlen fs k n, u) | None => None end) ->
+  forallb (fun p => afun_total (snd p)) fs = true ->
+  forall vs acc, vars_okb T vs = true -> exists vs', apply_vars T' fs vs acc = Ok vs'.
+Proof.
+  intros L TT. induction vs as [|[k v] vs IH]; intros acc W; simpl.
+  - eauto.
+  - simpl in W. apply andb_true_iff in W as [W1 W2]. apply var_okb_elim in W1 as [W1 _].
+    destruct (apply_var_shapes _ _ _ L TT _ _ W1) as (s & E1 & E2). rewrite E1. simpl.
+    unfold putvar, mkvar. rewrite E2. simpl. rewrite bc_into_refl. simpl. apply IH. exact W2.
+Qed.
+
+Theorem apply_completes f fs :
+  wfb f = true -> apply_dom f fs = true -> exists f', impl_apply f fs = Ok f' /\ wfb f' = true.
+Proof.
+  intros W D. pose proof (wfb_elim _ W) as [W1 W2].
+  destruct (apply_news_ok f fs D) as (news & EN & LN).
+  assert (TT : forallb (fun p => afun_total (snd p)) fs = true).
+  { unfold apply_dom in D. rewrite forallb_forall in D. apply forallb_forall. intros p Hp. specialize (D p Hp).
+    apply andb_true_iff in D as [D _]. apply andb_true_iff in D as [_ D]. exact D. }
+  destruct (relen_total (fun d n => match lookup d news with Some c => c | None => n end) (fdims f)) as (T' & ER & LR).
+  assert (L : forall k, lookup k T' = match lookup k (fdims f) with
+                                      | Some (n, u) => Some (apply_newlen fs k n, u) | None => None end).
+  { intros k. rewrite LR. destruct (lookup k (fdims f)) as [[n u]|] eqn:E; [|reflexivity]. rewrite (LN _ _ _ E). reflexivity. }
+  destruct (apply_vars_complete _ _ _ L TT (fvars f) [] W1) as (vs' & EV).
+  assert (R : impl_apply f fs = Ok (File T' vs' (fattrs f) (fcoords f))).
+  { unfold impl_apply. rewrite EN. simpl. rewrite ER. simpl. rewrite EV. reflexivity. }
+  eexists. split; [exact R|]. eapply apply_wf; eauto.
+Qed.
